@@ -1,6 +1,7 @@
 import TD.Common.Proto
 import TD.C10.Model
 import TD.C10.Spec
+import TD.C10.File
 open TD TD.C10 TD.Proto
 
 /-!
@@ -16,6 +17,9 @@ Line protocol of the C10 model driver (one reply line per request):
 * `red <method> <num/den,...>`                      reply: `num/den` or `none`
 * `split <hex>`                                     reply: comma separated hex tokens
 * `parse <hex>`                                     reply: `num/den` or `none`
+* `file <width> <decimals> <method> <nframes> <S hex,..> <comments hex,..> <chan;chan;..>`
+                            chan = `identhex:unitshex:descrhex:isInt:frame|frame|..`, frame = `num/den,..`; hex `_` = empty
+                            reply: hex of the whole text of write_curve_and_array_section_to_las
 -/
 
 def toks (s : String) : List String := if s = "-" then [] else s.splitOn ","
@@ -49,6 +53,19 @@ def parseRed : String → Option Reduction
   | "first" => some .first | "mean" => some .mean | "median" => some .median
   | "min" => some .min | "max" => some .max | _ => none
 
+def hexStr (h : String) : Option (List Char) := if h = "_" then some [] else (unhex h).map chars
+
+def parseFrames (s : String) : Option (List (List Rat)) :=
+  (if s = "-" then [] else s.splitOn "|").mapM (fun fr => (toks fr).mapM parseRat)
+
+def parseChanF (s : String) : Option ChanF :=
+  match s.splitOn ":" with
+  | [i, u, de, isInt, frs] =>
+    match hexStr i, hexStr u, hexStr de, parseFrames frs with
+    | some i, some u, some de, some frs => some ⟨⟨i, isInt == "1", frs⟩, u, de⟩
+    | _, _, _, _ => none
+  | _ => none
+
 def step (line : String) : String :=
   match line.splitOn " " with
   | ["sel", ids, s] =>
@@ -80,6 +97,11 @@ def step (line : String) : String :=
       | some q => showRat q
       | none => "none"
     | _, _ => "bad-op"
+  | ["file", w, d, m, n, sS, cm, chs] =>
+    match w.toNat?, d.toNat?, parseRed m, n.toNat?, (toks sS).mapM hexStr, (toks cm).mapM hexStr,
+        (chs.splitOn ";").mapM parseChanF with
+    | some w, some d, some m, some n, some S, some cmts, some chans => hexOf (fileText chans S m w d n cmts)
+    | _, _, _, _, _, _, _ => "bad-op"
   | ["split", h] =>
     match unhex h with
     | some bs => ",".intercalate ((splitWs (chars bs)).map hexOf)
